@@ -11,7 +11,29 @@ def eng(name, bin, base, **kw):
     return d
 
 
+# Miri runs the `release` profile (debug assertions OFF) so that undefined behaviour is reached and
+# reported by Miri itself instead of being pre-empted by the crate's debug_assert! preconditions
+# (those are the native-debugassert engine's job).
+MIRI = {"kind": "miri", "miriflags": "", "miri_profile": "release", "tiers": ["quick", "thorough"]}
+ASAN = {"kind": "asan"}
+
+
+def codec_engines(miri_shards_quick=8, miri_shards_thorough=16, asan_tiers=("quick", "thorough"), miri_tiers=("quick", "thorough")):
+    return [
+        eng("native-release", "chk-codec", NATIVE_REL),
+        eng("native-debugassert", "chk-codec", NATIVE_CHK),
+        eng("asan", "chk-codec", ASAN, tiers=list(asan_tiers), floor_scale=1.0),
+        eng("miri", "chk-codec", MIRI, tiers=list(miri_tiers), shards={"quick": miri_shards_quick, "thorough": miri_shards_thorough},
+            floor_scale=0.0, timeout={"quick": 1500, "thorough": 3600}),
+    ]
+
+
 CHECKS = {
+    "C12": {
+        "engines": codec_engines(),
+        "exhaustive": {"quick": True, "thorough": True},
+        "trusted_base": ["reference wire codec / reversal / expiry in harness/refscion"],
+    },
     "C15": {
         "engines": [
             eng("native-release", "chk-codec", NATIVE_REL),
